@@ -29,7 +29,8 @@ type model struct {
 	// dense kinds
 	n    int
 	tab  []float64
-	tags []int32 // nil: implicit simple.Node values
+	tags []int32   // nil: implicit simple.Node values
+	diag []float64 // diagonal of Matrix(): the self weight
 	// weight conventions
 	self, absent float64
 	ewf          int
@@ -50,6 +51,10 @@ func newModel(c *Case) *model {
 		m.tab = make([]float64, n*n)
 		for i := range m.tab {
 			m.tab[i] = float64(c.Init)
+		}
+		m.diag = make([]float64, n)
+		for i := range m.diag {
+			m.diag[i] = float64(c.Self)
 		}
 		if c.FromNodes {
 			m.tags = make([]int32, n)
